@@ -11,6 +11,7 @@ import (
 	"os"
 	"os/exec"
 	"strconv"
+	"syscall"
 
 	"verif/internal/checks"
 )
@@ -92,6 +93,13 @@ func main() {
 	if tier != "quick" && tier != "thorough" {
 		fmt.Println("bad tier", tier)
 		os.Exit(2)
+	}
+	// The monitor process itself is memory-limited (the sandbox has no limit of its own): should the
+	// library regress on C10 while another in-process monitor feeds it mutated images, the process dies
+	// at once with "fatal error: out of memory" (exit 2, inconclusive) instead of eating the machine.
+	if !raceBuild && os.Getenv("VERIF_NO_RLIMIT") == "" && os.Getenv("VERIF_CHILD") == "" {
+		lim := uint64(24) << 30
+		syscall.Setrlimit(syscall.RLIMIT_AS, &syscall.Rlimit{Cur: lim, Max: lim})
 	}
 	if code := checks.SelfTest(false); code != 0 {
 		fmt.Printf("INCONCLUSIVE property=%s oracle self-test failed\n", cmd)
